@@ -375,6 +375,32 @@ def with_directive(r, v):
     return g.set_at(v, p, d)
 
 
+def owner_reference_deviations(r, truth: dict):
+    """one-step deviations located under metadata.ownerReferences (they are ordinary content for the runner)"""
+    md = truth.get("metadata")
+    if not isinstance(md, dict):
+        return []
+    refs = md.get("ownerReferences")
+    other = {"apiVersion": "v1", "kind": "Owner", "name": "someone-else", "uid": "uid-x"}
+
+    def with_refs(v):
+        t = copy.deepcopy(truth)
+        if v is None:
+            t["metadata"].pop("ownerReferences", None)
+        else:
+            t["metadata"]["ownerReferences"] = v
+        return t
+
+    if not isinstance(refs, list) or not refs:
+        return [("added", with_refs([other]))]
+    out = [("uid-changed", with_refs([dict(refs[0], uid="uid-wrong")] + copy.deepcopy(refs[1:]))),
+           ("extra-reference", with_refs(copy.deepcopy(refs) + [other])),
+           ("key-dropped", with_refs(None))]
+    if len(refs) > 1:
+        out.append(("reference-missing", with_refs(copy.deepcopy(refs[1:]))))
+    return r.sample(out, min(len(out), 2))
+
+
 def build_assertions(r, kind: str, out, eff: dict, index_free: bool = False, current=None):
     """[(label, case-spec-fragment, must_pass)] from what the Function really did.
     `index_free`: do not quote message text that names the case's position (C18 moves cases around)."""
@@ -442,6 +468,8 @@ def build_assertions(r, kind: str, out, eff: dict, index_free: bool = False, cur
             for k, dev in g.deviations(r, b_form):
                 if isinstance(dev, dict) and dev and not g.json_eq(drop_empty_annotations(dev), b_form):
                     cases.append((f"resource:{k}", {"expectResource": dev}, False))
+            for k, dev in owner_reference_deviations(r, b_form):
+                cases.append((f"resource:ownerReferences-{k}", {"expectResource": dev}, False))
         else:
             plausible = {"apiVersion": "verif.koreo.dev/v1", "kind": "FtProbe",
                          "metadata": {"name": "alpha", "namespace": "ft-ns"}}
@@ -557,6 +585,14 @@ async def run_scenario(ck: Check, r, sc, want_cases=None):
         triples = build_assertions(r, kind, out, eff, current=current)
     else:
         triples = want_cases
+    if len(triples) > 20:      # the CRD allows at most 20 test cases
+        records = []
+        for i in range(0, len(triples), 20):
+            part = await run_scenario(ck, r, sc, want_cases=triples[i:i + 20])
+            if part and part[0]["case"] is None:
+                return part
+            records.extend(part)
+        return records
     cases = []
     for i, (label, frag, must) in enumerate(triples):
         c = dict(copy.deepcopy(frag), variant=True, label=f"{i}:{label}")
@@ -612,6 +648,10 @@ def _run_e2e_chunk(ck: Check, drv: LeanDriver, r, n: int):
             ck.count("e2e:skipped:function-under-test-raised")
             continue
         ck.count(f"e2e:{sc['kind']}:{sc['situation']}")
+        changed = g.constants_changed()
+        if changed:
+            ck.violate({"type": "constants", "kind": sc["kind"], "fn_spec": sc["fn_spec"], "inputs": sc["inputs"],
+                        "current": sc.get("current")}, changed)
         for rec in records:
             ck.evaluated()
             if rec["case"] is None:
@@ -823,6 +863,10 @@ def run_histories(ck: Check, drv: LeanDriver, r, n: int):
             ck.count("history:skipped:function-under-test-raised")
             continue
         ck.count(f"history:{sc['situation']}")
+        changed = g.constants_changed()
+        if changed:
+            ck.violate({"type": "constants", "kind": sc["kind"], "fn_spec": sc["fn_spec"], "inputs": sc["inputs"],
+                        "current": sc.get("current")}, changed)
         if isinstance(recs, str):
             ck.evaluated()
             if recs.startswith("skip:"):
@@ -851,6 +895,76 @@ def run_histories(ck: Check, drv: LeanDriver, r, n: int):
         for (sc, cases, i, c, got, out, eff), ans in zip(pending, drv.ask(reqs)):
             if ans.get("pass") != got:
                 ck.disagree(history_case(sc, cases, i), ans, got, "verdict-vs-test_pass(history)")
+
+
+# --------------------------------------------------------------------------- verdicts do not depend on what ran before
+
+OWNER_FN = {
+    "apiConfig": {"apiVersion": "verif.koreo.dev/v1", "kind": "FtProbe", "plural": "ftprobes",
+                  "name": "=inputs.name", "namespace": "ft-ns"},
+    "resource": {"metadata": {"labels": {"app": "a"},
+                              "ownerReferences": [{"apiVersion": "v1", "kind": "Owner", "name": "owner0", "uid": "uid-0"}]},
+                 "spec": {"size": "=inputs.size", "tags": ["b", "a"], "x-koreo-compare-as-set": ["tags"]}},
+    "return": {"size": "=resource.spec.size"},
+}
+OWNER_SENT = {"apiVersion": "verif.koreo.dev/v1", "kind": "FtProbe",
+              "metadata": {"name": "alpha", "namespace": "ft-ns", "labels": {"app": "a"},
+                           "ownerReferences": [{"apiVersion": "v1", "kind": "Owner", "name": "owner0", "uid": "uid-0"}]},
+              "spec": {"size": 3, "tags": ["b", "a"]}}
+
+
+def stability_cases(r):
+    cases = [{"label": "truth", "variant": True, "expectResource": copy.deepcopy(OWNER_SENT)}]
+    for k, dev in owner_reference_deviations(r, OWNER_SENT) + g.deviations(r, OWNER_SENT)[:3]:
+        if isinstance(dev, dict) and dev:
+            cases.append({"label": k, "variant": True, "expectResource": dev})
+    cases.append({"label": "outcome", "variant": True, "expectOutcome": {"retry": {"message": "creating", "delay": 0}}})
+    cases.append({"label": "delete", "variant": True, "expectDelete": False})
+    return cases
+
+
+def stability_verdicts(cases):
+    """the FunctionTest, then real reconciles against an EXISTING resource (steady state, drift → patch) through
+    another FunctionTest, then the same FunctionTest again -> (before, after, wrong) ; wrong = description | None"""
+    base = {"inputs": {"name": "alpha", "size": 3}}
+    sc = {"kind": "ResourceFunction", "fn_spec": OWNER_FN, "inputs": base["inputs"], "current": None}
+    before = ku.run(run_cases_observed("ResourceFunction", OWNER_FN, base, cases))
+    existing = {"inputs": base["inputs"], "currentResource": dict(copy.deepcopy(OWNER_SENT), status={"ready": True})}
+    ku.run(run_cases_observed("ResourceFunction", OWNER_FN, existing, [
+        {"label": "steady", "expectOutcome": {"ok": {}}},
+        {"label": "drift", "inputOverrides": {"size": 4}, "expectOutcome": {"retry": {"message": "", "delay": 0}}},
+    ]))
+    after = ku.run(run_cases_observed("ResourceFunction", OWNER_FN, base, cases))
+    if isinstance(before, str) or isinstance(after, str):
+        return before, after, f"the runner did not judge the cases: {before if isinstance(before, str) else after}"
+    for which, recs in (("first run", before), ("run after reconciles against an existing resource", after)):
+        for c, (got, out, eff) in zip(cases, recs):
+            want = verdict_ref(c, out, eff)
+            if got != want:
+                return before, after, (f"{which}, case {c['label']}: " + ("truthful assertion FAILED" if want
+                                                                         else "deviating assertion PASSED"))
+    vb, va = [x[0] for x in before], [x[0] for x in after]
+    if vb != va:
+        return before, after, f"the same FunctionTest is judged differently before and after other reconciles: {vb} vs {va}"
+    return before, after, None
+
+
+def run_stability(ck: Check, drv: LeanDriver, r, n: int):
+    for _ in range(n):
+        cases = stability_cases(r)
+        ck.evaluated()
+        ck.count("stability:twice-with-reconciles-between")
+        try:
+            before, after, bad = stability_verdicts(cases)
+        except g.FunctionRaised:
+            continue
+        changed = g.constants_changed()
+        case = {"type": "stability", "cases": cases}
+        if bad:
+            ck.violate(case, bad)
+        if changed:
+            ck.violate(case, changed)
+        ck.nontriv(hashlib.sha1(json.dumps(["s", [to_wire(c) for c in cases]], default=str).encode()).hexdigest()[:16])
 
 
 # --------------------------------------------------------------------------- corpus / replay
@@ -910,6 +1024,19 @@ def check_case(ftrun, case: dict):
         return check_verdict_case(ftrun, case)
     if case["type"] == "history":
         return history_verdicts(case, case["cases"])
+    if case["type"] == "stability":
+        g.constants_changed()
+        _, _, bad = stability_verdicts(case["cases"])
+        return bad or g.constants_changed()
+    if case["type"] == "constants":
+        g.constants_changed()
+        sc = {"kind": case["kind"], "fn_spec": case["fn_spec"], "inputs": case["inputs"], "current": case.get("current"),
+              "situation": "replay"}
+        try:
+            ku.run(run_scenario(None, rng("replay"), sc))
+        except g.FunctionRaised:
+            pass
+        return g.constants_changed()
     if case["type"] == "strip":
         try:
             got = ftrun._strip_last_applied_annotation(copy.deepcopy(case["m"]))
@@ -978,6 +1105,10 @@ def run(tier: str) -> int:
     ck.prove(extractors=["FtConsts"])
     drv = LeanDriver("C19")
 
+    changed = g.constants_changed()
+    if changed:
+        ck.violate({"type": "constants-at-start"}, changed)
+    run_stability(ck, drv, rng("c19-stability"), 3 if tier == "quick" else 20)
     replay_corpus(ck, ftrun)
     r = rng("c19")
     n_unit = 20000 if tier == "quick" else 300000
